@@ -1,13 +1,14 @@
 """C13 -- stop, skip, advance and last control the run as documented."""
-from . import core, shared
+from . import core, shared, control
 USES = ["shared"]
 
 
 def contracts():
-    return core.contracts()
+    return core.contracts() + control.contracts()
 
 
 LEVEL = "other"
 EXPLANATION = ("Matcher.matches is proved against control clauses written from the property (no component after a halt, skip means "
                "no match and does not outlive the line, stop mid-line means no match, stop as final component keeps the fold) with "
-               "match components as [A] interface objects that may fire stop/skip/fail.")
+               "match components as [A] interface objects that may fire stop/skip/fail; CsvPath.next, _consider_line, Stop/Skip/Advance/Last "
+               "are proved against their own clauses.")
